@@ -383,6 +383,154 @@ theorem mpz_import_obj_spec (z : Mpz) (hz : z.WF) (count : Nat) (order : Int) (s
       apply htop
       intro he; unfold normSize at hn0; rw [he] at hn0; exact hn0 rfl
 
+/-! ### text round trip with base 0 (output in decimal, input with prefix detection) -/
+
+/-- with base 0, a number whose first character (after an optional '-') is not '0' is read in base 10 -/
+theorem nowhite_base0 (x : Int) (r : List Nat) (c : Option Nat) (nread : Nat)
+    (h : (if c = some 45 then (getc r).1 else c) ≠ some 48) :
+    mpz_inp_str_nowhite x r 0 c nread = mpz_inp_str_nowhite x r 10 c nread := by
+  unfold mpz_inp_str_nowhite
+  have d0 : decide ((0 : Int) > 36) = false := by decide
+  have d10 : decide ((10 : Int) > 36) = false := by decide
+  have e0 : ¬ ((0 : Int) > 62) := by decide
+  have e10 : ¬ ((10 : Int) > 62) := by decide
+  have z10 : ¬ ((10 : Int) = 0) := by decide
+  simp only [d0, d10, e0, e10, if_false, if_true, z10]
+  by_cases hc : c = some 45
+  · simp only [hc, if_true] at h ⊢
+    cases hg : (getc r).1 with
+    | none => simp
+    | some ch =>
+      rw [hg] at h
+      have hne : ch ≠ 48 := by intro h'; exact h (by rw [h'])
+      simp [hne]
+  · simp only [hc, if_false] at h ⊢
+    cases c with
+    | none => simp
+    | some ch =>
+      have hne : ch ≠ 48 := by intro h'; exact h (by rw [h'])
+      simp [hne]
+
+theorem mpzText_base0 (x : Int) : mpzText 0 x = mpzText 10 x := by
+  unfold mpzText outBase magText numToText
+  simp
+
+/-- what may follow a number read with base 0: not a decimal digit, and not one of the prefix letters that
+    would turn a lone "0" into "0x" / "0b" -/
+def Base0Rest (rest : List Nat) : Prop :=
+  ∀ c, rest.head? = some c → digitValue false c ≥ 10 ∧ c ≠ 120 ∧ c ≠ 88 ∧ c ≠ 98 ∧ c ≠ 66
+
+theorem mpz_text_nowhite0 (x dest : Int) (rest : List Nat) (hrest : Base0Rest rest) (nread : Nat) :
+    ∃ c0 t, mpzText 0 x = c0 :: t ∧ isspace c0 = false ∧
+      mpz_inp_str_nowhite dest (t ++ rest) 0 (some c0) nread = (nread + (mpzText 0 x).length - 1, x, rest) := by
+  have hb : ((2 : Int) ≤ 10 ∧ (10 : Int) ≤ 62) ∨ ((-36 : Int) ≤ 10 ∧ (10 : Int) ≤ -2) := Or.inl ⟨by decide, by decide⟩
+  have hrest10 : ∀ c, rest.head? = some c → digitValue (decide ((((10 : Int).natAbs : Nat) : Int) > 36)) c ≥ (10 : Int).natAbs := by
+    intro c hc; exact (hrest c hc).1
+  have hf : ∀ e, e < 10 →
+      digitValue (decide (((10 : Nat) : Int) > 36)) (numToText 10 e) = e ∧ numToText 10 e ≠ 45 ∧
+      (numToText 10 e = 48 ↔ e = 0) := by
+    intro e he; obtain ⟨a, _, c, d⟩ := digit_char 10 hb e he; exact ⟨a, c, d⟩
+  rw [mpzText_base0]
+  have hob : outBase 10 = some 10 := by decide
+  unfold mpzText
+  rw [hob]
+  simp only
+  by_cases hx0 : x = 0
+  · subst hx0
+    refine ⟨48, [], by simp, by decide, ?_⟩
+    simp only [if_true, List.nil_append, List.length_singleton]
+    unfold mpz_inp_str_nowhite
+    have d0 : decide ((0 : Int) > 36) = false := by decide
+    have e0 : ¬ ((0 : Int) > 62) := by decide
+    have hc45 : ¬ (some 48 = some 45) := by decide
+    have hdig : ¬ ((digitValue false 48 : Int) ≥ 10) := by decide
+    simp only [d0, e0, if_false, hc45, if_true, hdig]
+    cases rest with
+    | nil => simp [getc, skipZeros, readDigits, ungetc]
+    | cons c r =>
+      obtain ⟨hc, h1, h2, h3, h4⟩ := hrest c rfl
+      have hc48 : c ≠ 48 := by intro h; rw [h] at hc; revert hc; decide
+      have hc8 : digitValue false c ≥ 8 := by omega
+      simp only [getc, Option.some.injEq, h1, h2, h3, h4, or_self, if_false, skipZeros_ne _ hc48,
+        readDigits_stop _ _ c r [] hc8]
+      simp [ungetc]
+  · simp only [hx0, if_false]
+    obtain ⟨v1, v2, v3, _⟩ := natDigits_spec 10 (by decide) x.natAbs
+    obtain ⟨n1, n2⟩ := v3 (by omega)
+    unfold magText
+    cases hds : natDigits 10 x.natAbs with
+    | nil => exact absurd hds n1
+    | cons d0 ds =>
+      rw [hds] at v1 v2 n2
+      have hd0 : d0 < 10 := v2 d0 (by simp)
+      have hd0z : d0 ≠ 0 := by simpa using n2
+      have hds' : ∀ e ∈ ds, e < 10 := fun e he => v2 e (by simp [he])
+      obtain ⟨_, hsp0, h45, h48⟩ := digit_char 10 hb d0 hd0
+      have hne48 : numToText 10 d0 ≠ 48 := fun h => hd0z (h48.mp h)
+      by_cases hneg : x < 0
+      · refine ⟨45, numToText 10 d0 :: ds.map (numToText 10), by simp [hneg], by decide, ?_⟩
+        simp only [hneg, if_true, List.map_cons, List.cons_append, List.nil_append, List.length_cons, List.length_map]
+        rw [nowhite_base0 _ _ _ _ (by simp [getc, hne48])]
+        have := nowhite_neg_digits dest 10 (by decide) (by decide) (numToText 10) hf d0 ds rest hd0 hd0z hds' hrest10 nread
+        rw [show ((10 : Nat) : Int) = 10 from rfl] at this
+        rw [this, v1]
+        have hxx : -(x.natAbs : Int) = x := by omega
+        rw [hxx]; congr 1; omega
+      · refine ⟨numToText 10 d0, ds.map (numToText 10), by simp [hneg], hsp0, ?_⟩
+        simp only [hneg, if_false, List.map_cons, List.nil_append, List.length_cons, List.length_map]
+        rw [nowhite_base0 _ _ _ _ (by simp [h45, hne48])]
+        have := nowhite_digits dest 10 (by decide) (by decide) (numToText 10) hf d0 ds rest hd0 hd0z hds' hrest10 nread
+        rw [show ((10 : Nat) : Int) = 10 from rfl] at this
+        rw [this, v1]
+        have hxx : (x.natAbs : Int) = x := by omega
+        rw [hxx]
+
+/-- stream-level round trip with base 0 on both sides (written in decimal, read with prefix detection) -/
+theorem mpz_text_roundtrip0 (x dest : Int) (rest : List Nat) (hrest : Base0Rest rest) :
+    mpz_inp_str_rd dest (mpzText 0 x ++ rest) 0 = ((mpzText 0 x).length, x, rest) := by
+  obtain ⟨c0, t, ht, hsp, hnw⟩ := mpz_text_nowhite0 x dest rest hrest 1
+  unfold mpz_inp_str_rd
+  rw [ht] at hnw ⊢
+  simp only [List.cons_append, skipWs, hsp, Bool.false_eq_true, if_false, hnw]
+  congr 1
+  simp
+
+theorem mpqText_base0 (num den : Int) : mpqText 0 num den = mpqText 10 num den := by
+  unfold mpqText; rw [mpzText_base0, mpzText_base0]
+
+theorem mpq_text_roundtrip0 (num den : Int) (q : Int × Int) (rest : List Nat) (hrest : Base0Rest rest)
+    (hslash : rest.head? ≠ some 47) :
+    mpq_inp_str_rd q (mpqText 0 num den ++ rest) 0 = ((mpqText 0 num den).length, (num, den), rest) := by
+  have hnl : 0 < (mpzText 0 num).length := by
+    obtain ⟨c0, t, h, _⟩ := mpz_text_nowhite0 num 0 [] (by intro c hc; simp at hc) 0
+    rw [h]; simp
+  have hslashrest : ∀ l : List Nat, Base0Rest (47 :: l) := by
+    intro l c hc
+    simp at hc; subst hc
+    exact ⟨by decide, by decide, by decide, by decide, by decide⟩
+  unfold mpq_inp_str_rd mpqText
+  by_cases hd : den ≠ 1
+  · simp only [hd, ne_eq, not_false_eq_true, if_true, List.append_assoc, List.cons_append]
+    rw [mpz_text_roundtrip0 num q.1 (47 :: (mpzText 0 den ++ rest)) (hslashrest _)]
+    obtain ⟨c0, t, ht, _, hnw⟩ := mpz_text_nowhite0 den 1 rest hrest ((mpzText 0 num).length + 1 + 1)
+    have hne : ¬ (mpzText 0 num).length = 0 := by omega
+    simp only [hne, if_false, getc, if_true, ht, List.cons_append, hnw]
+    have hne2 : ¬ ((mpzText 0 num).length + 1 + 1 + (c0 :: t).length - 1 = 0) := by simp
+    simp only [hne2, if_false]
+    congr 1
+    simp; omega
+  · have hd1 : den = 1 := by simpa using hd
+    subst hd1
+    simp only [ne_eq, not_true_eq_false, if_false, List.append_nil]
+    rw [mpz_text_roundtrip0 num q.1 rest hrest]
+    have hne : ¬ (mpzText 0 num).length = 0 := by omega
+    simp only [hne, if_false]
+    cases rest with
+    | nil => simp [getc, ungetc]
+    | cons c r =>
+      have hc47 : ¬ (some c = some 47) := by simpa using hslash
+      simp [getc, ungetc, hc47]
+
 /-! ### raw format: headers beyond 31 bits -/
 
 /-- the four header bytes decode to the byte count wrapped into [−2^31, 2^31) -/
